@@ -76,6 +76,14 @@ prop("C12", "Wire format is lossless, stable and safe to decode", "exploration",
      "generated messages over the full value space and generated hostile inputs; native fuzzing in the thorough tier; sampled, not exhaustive",
      "trusts the harness's own CBOR writer (80 lines) as the schema oracle and go-ipld-prime's generic decoder for stage classification")
 
+prop("C13", "Stored channels survive schema migration unchanged", "exploration", "mig",
+     "property testing (rapid): version-2 stores written by an independent CBOR encoder, field-by-field comparison of every accessor after migration, idempotent re-start (byte diff), readiness gate and listener call log",
+     [hx("TestC13_Migrate", 600, 24000), hx("TestC13_Ready", 600, 16000)],
+     ["well-formed version-2 records: map-encoded struct with tuple-encoded stages, as the previous schema version wrote them (key order free)",
+      "the readiness 'once' check waits 2 ms for a duplicate call after all listeners have been called"],
+     "generated version-2 stores (every status incl. the deprecated ones, arbitrary field values, 0..6 channels); sampled",
+     "trusts the harness's own CBOR writer for the version-2 layout")
+
 prop("C17", "Subscribers see every applied event once, in order", "exploration", "mgrx",
      "stateful property testing (rapid): subscriber call logs compared with the datastore write log (independent DAG-CBOR reader) and with a witness subscriber restricted to fenced subscription windows",
      [hx("TestC17_Mgrx", 1000, 24000)],
@@ -129,6 +137,7 @@ prop("C19", "Channel state views are total and self-consistent", "exploration", 
      TRUST)
 
 ENGINES = [
+    {"name": "mig", "path": "harness/hx/mig_test.go", "serves_properties": ["C13"], "kind_free_text": "rapid property tests opening version-2 datastores written by an independent encoder"},
     {"name": "wire", "path": "harness/wire", "serves_properties": ["C12"], "kind_free_text": "rapid property tests and a native fuzz target over the message constructors and decoders, with an independent schema encoder"},
     {"name": "mgrx", "path": "harness/hx (mgrx_*_test.go, rig_mgr_test.go)", "serves_properties": ["C02", "C03", "C04", "C05", "C08", "C09", "C10", "C11", "C17", "C19"], "kind_free_text": "rapid property tests driving a real manager (impl.NewDataTransfer) over a recording datastore, transport, network and scripted validators"},
     {"name": "fsmx", "path": "harness/hx (fsmx_*_test.go)", "serves_properties": ["C02", "C03", "C06", "C07", "C08", "C09", "C11", "C19"], "kind_free_text": "rapid state-machine tests driving channels.Channels over a recording datastore and environment"},
